@@ -9,6 +9,8 @@ package main
 // every invoke-mode call of the module whose receiver may be a load of such a field one of
 //   (g) a guard: the call is dominated by the non-nil branch of a nil test of the same field (directly, through a boolean
 //       that only ever caches such a test, or in every caller when the receiver is rooted at a parameter);
+//   (r) rejection: a called function tests the field against nil and every path of its nil branch returns an error (the
+//       sanitizer idiom; assumed to be applied to every loaded instance);
 //   (f) normalisation: the field belongs to a type only reachable from the GSUB/GPOS lookup interfaces, every such field has
 //       a never-nil store in the fill functions (exhaustiveness), and every value of these interfaces is created in a
 //       function that hands it out through the fill function (R-NIL/fill).
@@ -30,6 +32,7 @@ type nilAnalysis struct {
 	nullable map[*types.Var]string // field -> position of a conditional store
 	derived  map[*types.Var]string // field -> "copied from <field>"
 	filled   map[*types.Var]string // field -> fill function storing a never-nil value
+	rejected map[*types.Var]string // field -> load-time function returning an error when the field is nil
 	flags    map[*types.Var]*types.Var
 	callers  map[*ssa.Function][]ssa.CallInstruction
 	closures map[*ssa.Function][]*ssa.MakeClosure
@@ -108,7 +111,7 @@ func storedIfaceField(st *ssa.Store) *types.Var {
 
 func newNilAnalysis(p *Prog, tablesPkg string) *nilAnalysis {
 	na := &nilAnalysis{p: p, tables: tablesPkg, nullable: map[*types.Var]string{}, derived: map[*types.Var]string{},
-		filled: map[*types.Var]string{}, flags: map[*types.Var]*types.Var{}, callers: map[*ssa.Function][]ssa.CallInstruction{},
+		filled: map[*types.Var]string{}, rejected: map[*types.Var]string{}, flags: map[*types.Var]*types.Var{}, callers: map[*ssa.Function][]ssa.CallInstruction{},
 		closures: map[*ssa.Function][]*ssa.MakeClosure{}, neverNil: map[*ssa.Function]bool{}}
 	// NULLABLE
 	cond := map[*types.Var]string{}
@@ -203,6 +206,34 @@ func newNilAnalysis(p *Prog, tablesPkg string) *nilAnalysis {
 						changed = true
 					}
 				}
+			}
+		}
+	}
+	// rejected: a called function of the package of the tables, or of its importers at load time, tests the field against nil
+	// and every path of the nil branch returns an error (the sanitizer idiom: the font is refused)
+	for _, f := range p.ModFns() {
+		if len(na.callers[f]) == 0 || errIndex(f) < 0 {
+			continue
+		}
+		for _, b := range f.Blocks {
+			ifi := ifOf(b)
+			if ifi == nil {
+				continue
+			}
+			x, neq, ok := nilTest(ifi.Cond)
+			if !ok {
+				continue
+			}
+			ch, _ := fieldChain(x, 0)
+			if len(ch) == 0 || !na.isNullable(ch[len(ch)-1]) {
+				continue
+			}
+			nilSucc := b.Succs[0]
+			if neq {
+				nilSucc = b.Succs[1]
+			}
+			if len(nilSucc.Preds) == 1 && failingEdge(f, nilSucc, nil) {
+				na.rejected[ch[len(ch)-1]] = p.FnName(f)
 			}
 		}
 	}
@@ -970,6 +1001,10 @@ func ruleNil(p *Prog, r *Report, rule string, tablesPkg string, sinkPkgs []strin
 			continue
 		}
 		seen[key] = true
+		if fn := na.rejected[s.field]; fn != "" {
+			r.OK(rule, key, p.IPos(s.call), "the field is NULL-able ("+na.nullable[s.field]+na.derived[s.field]+") and a font whose field is nil is refused by "+fn+" (every path of its nil branch returns an error)"+s.why)
+			continue
+		}
 		if fn := na.filled[s.field]; fn != "" {
 			usedFill = true
 			r.OK(rule, key, p.IPos(s.call), "the field is NULL-able ("+na.nullable[s.field]+na.derived[s.field]+") and is replaced by an empty table in "+fn+s.why)
